@@ -224,6 +224,9 @@ class VFSZip(VFS_Real):
         while len(symlinkinodes) and len(symlinkinodes) != lastsymlinklen:
             lastsymlinklen = len(symlinkinodes)
             newsymlinkinodes = []
+            # A path that did not exist in the previous pass may exist now
+            # (it can run through a link that has just been resolved).
+            self.invalid_paths = set()
             for item in symlinkinodes:
                 if item["dest"][0] == "/":
                     dest = item["dest"][1:]
